@@ -149,6 +149,10 @@ func (p *Program) termOf1(v ssa.Value, busy map[ssa.Value]bool, depth int) *Term
 						t.Args = append(t.Args, mk("captured", "", b, rec(whole[0])))
 						continue
 					}
+					if st := p.structTerm(al, busy, depth+1); st != nil {
+						t.Args = append(t.Args, mk("captured", "", b, st))
+						continue
+					}
 				}
 				t.Args = append(t.Args, mk("captured", "", b, rec(b)))
 			}
